@@ -27,6 +27,19 @@ theorem sync_patterns :
     voiceSyncs.all (fun v => !dataSyncs.contains v) = true ∧ voiceSyncs.length = 4 ∧ dataSyncs.length = 4 :=
   sync_tables
 
+/-- the SYNC patterns are those of ETSI TS 102 361-1 table 9.2 (written out here, independently of `/repo`;
+the property speaks of "the four data sync patterns" and of "a voice sync pattern", i.e. of the standard's),
+and the library's voice / data classification of them is the standard's.  A changed constant keeps every
+round trip of the library with itself intact — model, code and tests agree — and is caught only here. -/
+theorem sync_patterns_etsi :
+    syncPatterns =
+      [("BsSourcedVoice", 0x755FD7DF75F7), ("BsSourcedData", 0xDFF57D75DF5D), ("MsSourcedVoice", 0x7F7D5DD57DFD),
+       ("MsSourcedData", 0xD5D7F77FD757), ("MsSourcedRcSync", 0x77D55F7DFD77), ("Tdma1Voice", 0x5D577F7757FF),
+       ("Tdma1Data", 0xF7FDD5DDFD55), ("Tdma2Voice", 0x7DFFD5F55D5F), ("Tdma2Data", 0xD7557F5FF7F5),
+       ("Reserved", 0xDD7FF5D757DD)]
+    ∧ voiceSyncs = [0x755FD7DF75F7, 0x7F7D5DD57DFD, 0x5D577F7757FF, 0x7DFFD5F55D5F]
+    ∧ dataSyncs = [0xDFF57D75DF5D, 0xD5D7F77FD757, 0xF7FDD5DDFD55, 0xD7557F5FF7F5] := by decide
+
 /-- no sync pattern collides with a valid EMB word: the outer 16 bits of no pattern form a QR(16,7,6)
 code word -/
 theorem sync_never_valid_emb :
